@@ -292,6 +292,8 @@ class Comparer:
             self.rewrites += 1
             if not (type(sf) is ast.Name and isinstance(sf.ctx, ast.Load)):
                 self.fail("Call", "lifted-callee-not-a-name", pf, sf)
+            if sf.id == pf.id:
+                self.fail("Call", "conversion-not-lifted", pf, sf)
             self.attrs(pf, sf)
         else:
             self.node(pf, sf, "Call.func")
@@ -473,6 +475,8 @@ def selfcheck():
     sc = P("y = zzz(3)")
     if diff(py, sc)[0] is not None:
         raise HarnessError("c09 selfcheck: lifted callee rejected")
+    if diff(py, P("y = str(3)"))[0] is None:
+        raise HarnessError("c09 selfcheck: unlifted conversion accepted")
     # class: base + table
     import copy
 
